@@ -112,7 +112,7 @@ theorem sound_nil {base : Image A} (h : Inv' base) : Sound base [] := by
   intro k
   have : (([] : List (Commit A)).take k) = [] := by cases k <;> rfl
   rw [this]
-  exact h
+  exact ⟨h, fun hb => hb⟩
 
 theorem recover_spec {img : Image A} (cfg : Cfg) (hi : Inv img) :
     ∃ rn, recover cfg img = .ok rn ∧ Good img rn ∧ rn.tip = img.best ∧
@@ -165,7 +165,7 @@ theorem recover_empty_spec (cfg : Cfg) :
   simp only [hcr, Bool.not_false, if_true]
   have c0 : Core (Image.empty A) (emit (bootNode (Image.empty A) [([], genesisStatus)] []) .create) :=
     { img_eq := rfl
-      sound := sound_snoc (sound_nil (Or.inl rfl)) (show Safe' (replay (Image.empty A) []) .create from rfl)
+      sound := sound_snoc (sound_nil (Or.inl rfl)) (show Safe' (replay (Image.empty A) []) .create from rfl) rfl
       created := rfl
       tip_eq := rfl
       idx_closed := by
